@@ -291,7 +291,7 @@ def check_estimators(s, prop='C02', where=''):
 
 def tally_check(ctx, prop='C02'):
     """shell_n_sample increments == points handed out by the bounds' sample() (independent tally)"""
-    if ctx['exc'] is not None or _act(ctx) in ('resume', 'observe', 'toggle', 'sched'):
+    if ctx['exc'] is not None or _act(ctx) in ('resume', 'observe', 'toggle'):
         return []
     s = ctx['post']
     pre = ctx['pre']
@@ -497,7 +497,7 @@ def mon_calls(ctx):
     prop = 'C10'
     out = []
     act = _act(ctx)
-    if ctx['exc'] is not None or act in ('observe', 'toggle', 'sched'):
+    if ctx['exc'] is not None or act in ('observe', 'toggle'):
         return out
     pre, s, scn = ctx['pre'], ctx['post'], ctx['scn']
     nb = scn['n_batch']
@@ -539,7 +539,7 @@ def mon_calls(ctx):
     k = len(ctx['evals'])
     n_like_max = None
     timeout = None
-    if act in ('step', 'raise', 'runarg'):
+    if act in ('step', 'raise', 'runarg', 'sched'):
         n_like_max = int(pre.n_like) + 1
     elif act == 'run2':
         n_like_max = int(pre.n_like) + nb + 1
@@ -676,7 +676,7 @@ def bound_structure(b):
 
 def mon_freeze(ctx):
     prop = 'C12'
-    if ctx['exc'] is not None or _act(ctx) in ('observe', 'sched'):
+    if ctx['exc'] is not None or _act(ctx) in ('observe',):
         return []
     pre, s = ctx['pre'], ctx['post']
     out = []
